@@ -320,6 +320,105 @@ func TestC10Paths(t *testing.T) {
 	})
 }
 
+// TestC10Request: the same atomicity through the library entry point (RunTraceroute with one run), which adds
+// its own layer between the caller and the protocol packages.
+func TestC10Request(t *testing.T) {
+	rec := NewRecorder("C10", "C10Request", "enumeration through RunTraceroute (one run, no e2e probes): protocol {udp, icmp, tcp syn, tcp sack} x ({single fatal fault at sink factory, source factory, first/second SetPacketFilter, WriteTo k=1..3, Read k=1..4, SetReadDeadline k=1..2} + fault-free with the public IP requested from a prompt / slow / failing service); oracle: no crash, no result, an error whose chain exposes the injected sentinel when a fault fired (same result as fault-free otherwise), every handle closed exactly once, no goroutine left; non-trivial = the fault fired; exhaustive over that product")
+	rec.Exhaustive = true
+	type reqCase struct {
+		Rq *Request `json:"request"`
+	}
+	type fk struct {
+		kind, op string
+		k        int
+	}
+	var faults []fk
+	faults = append(faults, fk{"sinkfactory", "New", 1}, fk{"sourcefactory", "New", 1}, fk{"source", "SetPacketFilter", 1}, fk{"source", "SetPacketFilter", 2})
+	for k := 1; k <= 3; k++ {
+		faults = append(faults, fk{"sink", "WriteTo", k})
+	}
+	for k := 1; k <= 4; k++ {
+		faults = append(faults, fk{"source", "Read", k})
+	}
+	faults = append(faults, fk{"source", "SetReadDeadline", 1}, fk{"source", "SetReadDeadline", 2})
+	RunCases(t, rec, func(yield func(*reqCase) bool) {
+		for _, pm := range [][2]string{{"udp", ""}, {"icmp", ""}, {"tcp", "syn"}, {"tcp", "sack"}} {
+			for _, f := range faults {
+				rq := &Request{}
+				rq.P = ReqParams{Hostname: "93.184.216.34", Port: 443, Protocol: pm[0], TCPMethod: pm[1], MinTTL: 1, MaxTTL: 3, DelayMs: 2, TimeoutMs: 60, Queries: 1}
+				if pm[1] == "sack" {
+					rq.SackSrv = true
+					rq.P.Hostname = "127.9.8.6"
+					rq.Sack = SackCfg{Permit: true, TS: true, ClientNxt: 0x10203040, ServerISN: 0x0a0b0c0d, SynAckUs: 1000}
+				}
+				rq.Scripts = []FlowScript{{DestDist: 3, Default: HopSpec{DelayUs: 4000}}}
+				h := 0
+				if f.op == "New" {
+					h = -1
+				}
+				rq.Faults = []Fault{{Kind: f.kind, Handle: h, Op: f.op, K: f.k, Class: "fatal"}}
+				if !yield(&reqCase{Rq: rq}) {
+					return
+				}
+			}
+			// fault-free, with the source public IP requested from a prompt / slow / failing service: nothing the
+			// request started may be left behind
+			for _, fm := range []string{"", "slow", "error"} {
+				rq := &Request{Fetcher: fm, ReadAfter: true}
+				rq.P = ReqParams{Hostname: "93.184.216.34", Port: 443, Protocol: pm[0], TCPMethod: pm[1], MinTTL: 1, MaxTTL: 3, DelayMs: 2, TimeoutMs: 60, Queries: 1, PublicIP: true}
+				if pm[1] == "sack" {
+					rq.SackSrv = true
+					rq.P.Hostname = "127.9.8.6"
+					rq.Sack = SackCfg{Permit: true, TS: true, ClientNxt: 0x10203040, ServerISN: 0x0a0b0c0d, SynAckUs: 1000}
+				}
+				rq.Scripts = []FlowScript{{DestDist: 3, Default: HopSpec{DelayUs: 4000}}}
+				rq.Faults = []Fault{{Kind: "none", Handle: 0, Op: "none", K: 1, Class: "fatal"}}
+				if !yield(&reqCase{Rq: rq}) {
+					return
+				}
+			}
+		}
+	}, func(t *testing.T, c *reqCase, rec *Recorder) []Diff {
+		o := RunRequest(t, c.Rq)
+		var ds []Diff
+		add := func(sig, f string, a ...any) { ds = append(ds, Diff{"C10", sig, fmt.Sprintf(f, a...)}) }
+		f := c.Rq.Faults[0]
+		if o.ChangedAfterReturn != "" {
+			add("written-after-return", "fetcher %q: %s", c.Rq.Fetcher, o.ChangedAfterReturn)
+		}
+		fired := o.Wire != nil && len(o.Wire.Fired) > 0
+		rec.CaseEnumerated(fired, map[string]any{"protocol": c.Rq.P.Protocol, "method": c.Rq.P.TCPMethod, "fault": f, "err": fmt.Sprint(o.Err)}, "protocol:"+c.Rq.P.Protocol+c.Rq.P.TCPMethod, fmt.Sprintf("fault:%s.%s", f.Kind, f.Op), fmt.Sprintf("fired:%v", fired))
+		if o.Panic != "" || o.Deadlock != "" || o.Wire == nil {
+			add("crash", "fault %+v crashed or wedged the request: %s%s", f, o.Panic, o.Deadlock)
+			return ds
+		}
+		if fired {
+			if o.Res != nil || o.Err == nil {
+				add("partial-success", "fatal fault %+v fired but the request returned a result (err=%v)", f, o.Err)
+			} else {
+				found := false
+				for _, s := range o.Wire.Fired {
+					if errors.Is(o.Err, s) {
+						found = true
+					}
+				}
+				if !found {
+					add("cause-lost", "fault %+v: returned error does not wrap the injected cause: %v", f, o.Err)
+				}
+			}
+		} else if (o.Err == nil) == (o.Res == nil) {
+			add("result-xor-error", "no fault fired: result %v, error %v", o.Res != nil, o.Err)
+		}
+		for _, p := range o.Wire.HandleProblems() {
+			add("handle", "%s (fault %+v)", p, f)
+		}
+		if o.GorAfter > o.GorBefore {
+			add("goroutine-leak", "%d goroutines before the call, %d after it returned (fault %+v)", o.GorBefore, o.GorAfter, f)
+		}
+		return ds
+	})
+}
+
 func TestC10Multi(t *testing.T) {
 	rec := NewRecorder("C10", "C10Multi", "rapid: generated scenarios (all variants, worlds with loss/duplicates) with 1..3 simultaneous faults at drawn call indices and classes; same oracle")
 	RunProp(t, rec, func(rt *rapid.T) *c10Case {
